@@ -118,7 +118,7 @@ def post(check, pairs, stats):
 CFG = {
     "id": "C09",
     "level": "proof",
-    "lean_modules": ["GeomV.C09.Proofs"],
+    "lean_modules": ["GeomV.C09.Proofs", "GeomV.C09.ProofsProj"],
     "exe": "geomv_c09",
     "go_cmd": "c09",
     "stages": ["go:gen", "go:impl", "lean:judge"],
@@ -133,6 +133,9 @@ CFG = {
         "go_adjust_lat_eq_js", "go_asinz_eq_js", "go_phi2z_eq_js", "go_imlfn_eq_js", "go_consts_eq_js",
         # (A) projection level, Go closures = proj4js methods
         "go_merc_fwd_eq_js", "go_aea_fwd_eq_js", "go_eqdc_fwd_eq_js", "go_tmerc_fwd_eq_js",
+        "go_lcc_fwd_eq_js", "go_krovak_fwd_eq_js",
+        "go_merc_inv_eq_js", "go_lcc_inv_eq_js", "go_aea_inv_eq_js", "go_eqdc_inv_eq_js", "go_tmerc_inv_eq_js",
+        "go_krovak_inv_eq_js", "go_aeaPhi1z_eq_js",
         # (B) Snyder's closed forms
         "snyder_mdist_eq", "snyder_m_eq", "snyder_t_eq", "snyder_q_eq",
         "snyder_merc_eq", "snyder_lcc_eq", "snyder_aea_eq", "snyder_eqdc_eq",
